@@ -490,10 +490,25 @@ func checkC16(c *Ctx, w *World) {
 				return
 			}
 			ngo++
-			good := fn == g.newMC && len(p.calleesOf(&gi.Call)) == 1 && p.calleesOf(&gi.Call)[0] == g.monitor
+			// the started function, its receiver and its arguments — also when it is started through a bound method value
+			// (`monitor := mc.monitor; go monitor(ctx)`)
+			var target *ssa.Function
+			var recvArg ssa.Value
+			var restArgs []ssa.Value
+			if cs := p.calleesOf(&gi.Call); len(cs) == 1 && len(gi.Call.Args) >= 1 && !gi.Call.IsInvoke() {
+				target, recvArg, restArgs = cs[0], gi.Call.Args[0], gi.Call.Args[1:]
+			}
+			if mk, isMk := cellValue(gi.Call.Value).(*ssa.MakeClosure); isMk && len(mk.Bindings) == 1 {
+				if bf, isF := mk.Fn.(*ssa.Function); isF && strings.HasPrefix(bf.Synthetic, "bound method wrapper") {
+					if mobj, isM := bf.Object().(*types.Func); isM {
+						target, recvArg, restArgs = p.SSA.FuncValue(mobj), mk.Bindings[0], gi.Call.Args
+					}
+				}
+			}
+			good := fn == g.newMC && target != nil && target == g.monitor && len(restArgs) >= 1
 			if good {
 				// ctx argument from context.WithCancel, whose cancel is stored in monitoredConn.cancel of the same object
-				ctxArg := gi.Call.Args[1]
+				ctxArg := restArgs[0]
 				e, isE := ctxArg.(*ssa.Extract)
 				good = isE && e.Index == 0
 				if good {
@@ -502,7 +517,7 @@ func checkC16(c *Ctx, w *World) {
 					stored := false
 					for _, a := range g.ai.ByFn[fn] {
 						if a.Field == "monitoredConn.cancel" && a.What == "store" {
-							if ce, ok := a.Instr.(*ssa.Store).Val.(*ssa.Extract); ok && ce.Tuple == e.Tuple && ce.Index == 1 && a.Base == gi.Call.Args[0] {
+							if ce, ok := a.Instr.(*ssa.Store).Val.(*ssa.Extract); ok && ce.Tuple == e.Tuple && ce.Index == 1 && cellValue(a.Base) == cellValue(recvArg) {
 								stored = true
 							}
 						}
